@@ -87,8 +87,74 @@ Definition mistakes_of (c : caseRecv) : N :=
   mistakes (pf_of (rc_pf c)) (reparse_of (rc_or c)) (reparse_arr_of (rc_or c)) (reparse_preds_of (rc_or c))
            interp_with_lib (interp_fn_lib (rc_consts c)) (rc_ty c) (rc_input c).
 
+(** "name" or "name[3]" -> "name" *)
+Fixpoint before_bracket (s : string) : string :=
+  match s with
+  | EmptyString => EmptyString
+  | String c r => if Ascii.eqb c "["%char then EmptyString else String c (before_bracket r)
+  end.
+Fixpoint before_slash (s : string) : string :=
+  match s with
+  | EmptyString => EmptyString
+  | String c r => if Ascii.eqb c "/"%char then EmptyString else String c (before_slash r)
+  end.
+Fixpoint split_slash_aux (cur : string) (s : string) : list string :=
+  match s with
+  | EmptyString => [cur]
+  | String c r => if Ascii.eqb c "/"%char then cur :: split_slash_aux EmptyString r
+                  else split_slash_aux (cur ++ String c EmptyString) r
+  end.
+Definition split_slash (s : string) : list string := split_slash_aux EmptyString s.
+
+(** "each [leaf] names the offending item and its outer-to-inner location path", read on the input:
+    the location path of a leaf is the chain of the NAMES of the items that enclose the leaf's span,
+    outermost first (the root item excluded) - up to, or up to and including, the item whose range
+    the span is (an unknown or repeated item is located by what encloses it, a rejected value under
+    its own name).  `flatten` adds no segment and no nesting; `name[3]` counts as `name`. *)
+Fixpoint path_candidates (fuel : nat) (items : list nested) (s : span) : list (list string) :=
+  match fuel with
+  | O => [[]]
+  | S fuel' =>
+      match find (fun it => span_inside s (i_span (ninfo it))) items with
+      | None => [[]]
+      | Some it =>
+          let name := Spec.C01.item_name it in
+          (* the leaf is about the item itself: its whole range, or the range of its NAME (a repeated map key) *)
+          if (span_eqb s (i_span (ninfo it))
+              || match meta_path it with Some p => span_inside s (i_span (p_info p)) | None => false end)%bool
+          then [[]; [name]]
+          else
+            match it with
+            | NList _ _ _ inner => map (cons name) (path_candidates fuel' inner s)
+            | _ => [[name]]
+            end
+      end
+  end.
+
+Fixpoint depth_of (n : nested) : nat :=
+  match n with
+  | NList _ _ _ items => S (fold_left Nat.max (map depth_of items) 0)
+  | _ => 1
+  end.
+
+Definition leaf_path_ok (input : nested) (l : string * option string * option span) : bool :=
+  let '(_, locs, sp) := l in
+  match sp with
+  | None => true                                    (* spans are C03's concern *)
+  | Some s =>
+      let path := match locs with None => [] | Some j => map before_bracket (split_slash j) end in
+      let cands := match input with NList _ _ _ items => path_candidates (depth_of input) items s | _ => [[]] end in
+      existsb (list_eqb str_eqb path) cands
+  end.
+
+Definition paths_ok (input : nested) (o : conv_obs) : bool :=
+  match o with
+  | CErr e => forallb (leaf_path_ok input) (obs_leaves None None e)
+  | _ => true
+  end.
+
 (** C02: parsing fails exactly when the specification finds a mistake, and then the error has
-    exactly one leaf per mistake *)
+    exactly one leaf per mistake, each located by the names of the items around it *)
 Definition holds02 (c : caseRecv) : bool :=
   (* [kwfb]: the receiver meets the hypotheses of Run/SpecCount.v [mistakes_count] *)
   kwfb (interp_fn_lib (rc_consts c)) (rc_ty c) &&
@@ -96,7 +162,9 @@ Definition holds02 (c : caseRecv) : bool :=
   | EMeta =>
       match expected_of c, rc_obs c with
       | Some v, COk v' => value_eqb v v' && N.eqb (mistakes_of c) 0
-      | None, CErr (Obs n _ _ _ _ _) => N.ltb 0 (mistakes_of c) && N.eqb n (mistakes_of c)
+      | None, CErr (Obs n _ _ _ _ _) =>
+          N.ltb 0 (mistakes_of c) && N.eqb n (mistakes_of c)
+          && (negb (wfpb (rc_input c)) || paths_ok (rc_input c) (rc_obs c))     (* [wfpb]: the ranges of the input nest as its items do *)
       | _, _ => false
       end
   | _ => true
@@ -150,17 +218,6 @@ Definition kind_blame_ok (input : nested) (body : string) (s : span) : bool :=
   else if prefix "Too many items" body then existsb (span_eqb s) (surplus_spans input)
   else true.
 
-(** "name" or "name[3]" -> "name" *)
-Fixpoint before_bracket (s : string) : string :=
-  match s with
-  | EmptyString => EmptyString
-  | String c r => if Ascii.eqb c "["%char then EmptyString else String c (before_bracket r)
-  end.
-Fixpoint before_slash (s : string) : string :=
-  match s with
-  | EmptyString => EmptyString
-  | String c r => if Ascii.eqb c "/"%char then EmptyString else String c (before_slash r)
-  end.
 
 Definition top_items (n : nested) : list nested :=
   match n with NList _ _ _ items => items | _ => [] end.
@@ -279,13 +336,6 @@ Definition descend_pos (p : position) (seg : string) : option position :=
   | PFields fs => option_map PTy (own_field fs seg)
   end.
 
-Fixpoint split_slash_aux (cur : string) (s : string) : list string :=
-  match s with
-  | EmptyString => [cur]
-  | String c r => if Ascii.eqb c "/"%char then cur :: split_slash_aux EmptyString r
-                  else split_slash_aux (cur ++ String c EmptyString) r
-  end.
-Definition split_slash (s : string) : list string := split_slash_aux EmptyString s.
 
 Fixpoint resolve (p : position) (path : list string) : option position :=
   match path with
